@@ -31,8 +31,12 @@ TABLE = [(0.25, 3.0), (0.20, 2.5), (0.15, 2.0), (0.10, 1.78), (0.05, 1.58)]
 
 @st.composite
 def strategy(draw):
-    on_edge = draw(gen.chance(4))
-    f0t = draw(st.sampled_from(EDGES)) if on_edge else draw(gen.log_floats(0.12, 8.0))
+    on_edge = draw(gen.chance(3))
+    if on_edge:
+        f0t = draw(gen.choice(EDGES))
+    else:
+        lo_b, hi_b = draw(gen.choice([(0.12, 0.199), (0.201, 0.499), (0.501, 0.999), (1.001, 1.999), (2.001, 8.0)]))
+        f0t = lo_b + (hi_b - lo_b) * draw(gen.floats(0.0, 1.0))
     npts = draw(st.integers(60, 200))
     bumps = [dict(c=f0t, h=draw(gen.floats(0.3, 6.0)), w=draw(gen.floats(0.08, 0.5)))]
     for _ in range(draw(st.sampled_from([0, 1, 1, 2]))):
